@@ -449,7 +449,19 @@ class C20(PropertyCheck):
     id = "C20"
     lean_modules = ["QipVerif.Props.C20"]
     drivers = ["drv_render"]
-    theorems = []   # filled below
+    theorems = [
+        "QipVerif.C20.three_rows_per_wire",
+        "QipVerif.C20.row_order",
+        "QipVerif.C20.row_labels",
+        "QipVerif.C20.aligned_after_every_step",
+        "QipVerif.C20.aligned_after_every_append",
+        "QipVerif.C20.aligned_final",
+        "QipVerif.C20.equal_width_partial",
+        "QipVerif.C20.draw_succeeds",
+        "QipVerif.C20.equal_width_counterexample_inside",
+        "QipVerif.C20.equal_width_counterexample_below",
+        "QipVerif.C20.equal_width_refuted",
+    ]
     technique = ("Lean 4 proof (invariants of the renderer's append-only row state, by induction over the circuit) "
                  "+ model/implementation correspondence with exact string equality")
     level_text = ""
